@@ -67,10 +67,14 @@ structure DState where
   w : World := {}
   h : Heap := {}
   usable : Bool := false
+  finished : Bool := false   -- the encoder has returned STREAM_END for LZMA_FINISH
   kind : Nat := 0            -- init id of the coder on the handle (0 = none)
   chain : Chain := []        -- chain of the current stream encoder
   recipe : Option Recipe := none
   slot : Nat := 0
+
+/-- "the return code of this step is not modelled" (only that it does nothing with the allocator) -/
+def RET_ANY : Ret := 96
 
 def isEncoderKind (k : Nat) : Bool := k == I_SENC || k == I_AENC || k == I_MLENC || k == I_BENC || k == 200
 def isDecoderKind (k : Nat) : Bool :=
@@ -86,6 +90,7 @@ inductive Act where
   | upd (c : Chain)
   | plain (op : Op)            -- non-stream API: the return code is the model's
   | end_
+  | noop                       -- refused / erroneous call without allocator activity (memlimit, bad action): ret not modelled
   | bad
 
 def strMeta (m : String) : Option (Nat × Option Nat × Bool) :=
@@ -130,6 +135,11 @@ def parseStep (tok : String) : Act :=
   | ["sync", n] => match n.toNat? with | some n => .encode 1 n | none => .bad
   | ["full", n] => match n.toNat? with | some n => .encode 2 n | none => .bad
   | ["finish", n] => match n.toNat? with | some n => .encode 3 n | none => .bad
+  | ["sdecbad"] => .init (.badFlagsInit 0) 0 [] none 0
+  | ["lzipdecbad"] => .init (.badFlagsInit 1) 0 [] none 0
+  | ["adecbad"] => .init (.badFlagsInit 2) 0 [] none 0
+  | ["memlimit", _] => .noop
+  | ["badaction"] => .noop
   | ["iencode"] => .iencode
   | ["dcode"] => .dcode
   | ["upd", c] => chainOr c .upd
@@ -178,14 +188,14 @@ def stepModel (fail : Oracle) (st : DState) (act : Act) : Ret × DState :=
     if blocked then (RET_SKIP, st) else
     let (r, h') := runM (runOp SZ st.w op) fail st.h
     if r.1 == OK then
-      (OK, { st with w := r.2, h := h', usable := true, kind := kind, chain := chain, recipe := recipe, slot := slot })
+      (OK, { st with w := r.2, h := h', usable := true, finished := false, kind := kind, chain := chain, recipe := recipe, slot := slot })
     else
-      (r.1, { st with w := r.2, h := h', usable := false, kind := 0, recipe := recipe, slot := slot })
+      (r.1, { st with w := r.2, h := h', usable := false, finished := false, kind := 0, recipe := recipe, slot := slot })
   | .encode act len =>
     if !st.usable || !isEncoderKind st.kind then (RET_SKIP, st) else
     let (r, h') := runM (runOp SZ st.w (.encode st.chain act len)) fail st.h
     if r.1 == OK then
-      (if act == 0 then OK else STREAM_END, { st with w := r.2, h := h', usable := act != 3 })
+      (if act == 0 then OK else STREAM_END, { st with w := r.2, h := h', usable := act != 3, finished := act == 3 })
     else (r.1, { st with w := r.2, h := h', usable := false })
   | .iencode =>
     if !st.usable || st.kind != I_IENC then (RET_SKIP, st) else (STREAM_END, { st with usable := false })
@@ -197,16 +207,18 @@ def stepModel (fail : Oracle) (st : DState) (act : Act) : Ret × DState :=
       let (r, h') := runM (runOp SZ st.w (.decode rc st.slot)) fail st.h
       (r.1, { st with w := r.2, h := h', usable := false })
   | .upd c =>
-    if !st.usable || st.kind != I_SENC then (RET_SKIP, st) else
-    let (r, h') := runM (runOp SZ st.w (.filtersUpdate c)) fail st.h
+    if !(st.usable || st.finished) || !(st.kind == I_SENC || st.kind == 200 || st.kind == I_BENC) then (RET_SKIP, st) else
+    if st.kind != I_SENC then (RET_ANY, st) else     -- raw / block encoder: nothing may be allocated, the code is not modelled
+    let (r, h') := runM (runOp SZ st.w (.filtersUpdate st.chain c)) fail st.h
     (r.1, { st with w := r.2, h := h', chain := if r.1 == OK then c else st.chain })
+  | .noop => (if st.w.strm.isNone then RET_SKIP else RET_ANY, st)
   | .plain op =>
     let (r, h') := runM (runOp SZ st.w op) fail st.h
     -- PROG_ERROR = an operand is missing because an earlier step failed: the harness skips such a step
     (if r.1 == PROG_ERROR then RET_SKIP else r.1, { st with w := r.2, h := h' })
   | .end_ =>
     let (r, h') := runM (runOp SZ st.w .lzmaEnd) fail st.h
-    (OK, { st with w := r.2, h := h', usable := false, kind := 0 })
+    (OK, { st with w := r.2, h := h', usable := false, finished := false, kind := 0 })
   | .bad => (97, st)
 
 def parseHEv (s : String) : HEv :=
@@ -279,7 +291,7 @@ partial def replay (fail : Oracle) (st : DState) (acts : List Act) (trace : List
     match matchEvents wild newEvs hev with
     | some e => s!"MISMATCH step={i} {e}"
     | none =>
-      if r != hret then s!"MISMATCH step={i} return code: model {r} implementation {hret}"
+      if r != hret && r != RET_ANY then s!"MISMATCH step={i} return code: model {r} implementation {hret}"
       else replay fail st' acts' trace' (i + 1) (nev + hev.length)
   | _, _ => s!"MISMATCH step={i} number of steps differs"
 
